@@ -60,6 +60,8 @@ class Recorder:
         self.gv = {"none": True}
         self.fail_at = set(scn.get("failAt", []))
         self.script = {int(k): v for k, v in scn.get("script", {}).items()}
+        self.script_occ = scn.get("script_occ")   # {"c:occ": {"sends": [...], "raise": bool}}
+        self.occ = {}
         self.retobjs = {}
         self.loops = set()
         self.notes = []
@@ -151,10 +153,29 @@ def make_callback(rt, c, cb, slot_getter=None):
 
     def pre(machine, event, source, target, state):
         n = rt.begin(c, machine, event, source, target, state)
+        rt.occ[c] = rt.occ.get(c, 0) + 1
         return n
 
+    def plan_of():
+        if rt.script_occ is None:
+            return None
+        return rt.script_occ.get(f"{c}:{rt.occ.get(c, 0)}", {"sends": [], "raise": False})
+
+    def sends_of():
+        p = plan_of()
+        if p is not None:
+            return list(p["sends"]), True
+        return rt.script.get(c, []), False
+
     def finish(n, machine):
-        if always_raises or n in rt.fail_at:
+        p = plan_of()
+        if p is not None:
+            boom = p["raise"]
+        else:
+            boom = always_raises or n in rt.fail_at or (
+                cb["group"] == "validators" and cb["gname"] != "none"
+                and not rt.gv.get(cb["gname"], True))
+        if boom:
             rt.end(c, True)
             raise Boom(c)
         rt.end(c, False)
@@ -168,8 +189,9 @@ def make_callback(rt, c, cb, slot_getter=None):
             n = pre(machine, event, source, target, state)
             tok = _depth.set(_depth.get() + 1)
             try:
-                for ev in rt.script.get(c, []):
-                    if rt.budget <= 0:
+                sends, planned = sends_of()
+                for ev in sends:
+                    if rt.budget <= 0 and not planned:
                         break
                     rt.budget -= 1
                     rt.ncall(c, ev)
@@ -199,8 +221,9 @@ def make_callback(rt, c, cb, slot_getter=None):
             try:
                 for _ in range(yields):
                     await asyncio.sleep(0)
-                for ev in rt.script.get(c, []):
-                    if rt.budget <= 0:
+                sends, planned = sends_of()
+                for ev in sends:
+                    if rt.budget <= 0 and not planned:
                         break
                     rt.budget -= 1
                     rt.ncall(c, ev)
@@ -299,12 +322,20 @@ class Built:
     def build(self):
         d, rt = self.d, self.rt
         _class_counter[0] += 1
+        clsname = f"{d.get('name', 'M')}_{_class_counter[0]}"
+        self.clsname = clsname
         states = {}
         attrs = {}
         by_prov = {}
         funcs = {}
         for c, cb in enumerate(d["cbs"], start=1):
             method, function = make_callback(rt, c, cb)
+            if not d.get("collide_qualnames"):
+                # realistic qualified names: <owner class>.<method>; unique per built class so the
+                # library's process-global signature cache cannot mix up unrelated scenarios
+                owner = clsname if cb["prov"] == "sm" else f"P_{cb['prov']}_{_class_counter[0]}"
+                method.__qualname__ = f"{owner}.{cb['name']}"
+                function.__qualname__ = f"mod_{_class_counter[0]}.{cb['name']}"
             funcs[c] = (method, function)
             style = cb["style"]
             if style in ("name", "convention"):
@@ -389,7 +420,7 @@ class Built:
                 attrs[ev] = acc
         for name, fn in by_prov.get("sm", {}).items():
             attrs[name] = fn
-        name = f"{d.get('name', 'M')}_{_class_counter[0]}"
+        name = clsname
         kwargs = {"strict_states": True} if d.get("strict") else {}
         with warnings.catch_warnings(record=True) as w:
             warnings.simplefilter("always")
